@@ -161,7 +161,9 @@ class GMRFPiecewiseCoalescentBlockUpdatingOperator(MCMCOperator):
 
     def _step(self) -> Tensor:
         coalescent = self.coalescent.distribution()
-        gamma = self.gmrf.field.tensor
+        # a copy: the tensor of a ViewParameter is a view of its base, which the
+        # assignment of the proposed field below overwrites in place
+        gamma = self.gmrf.field.tensor.clone()
         sufficient_statistics, coalescent_counts = coalescent.sufficient_statistics(
             self.coalescent.tree_model.node_heights
         )
